@@ -186,7 +186,14 @@ namespace optree {
     const std::vector<Node>& traversal,
     const ssize_t& pos,
     const std::vector<Node>& other_traversal,
-    const ssize_t& other_pos) {
+    const ssize_t& other_pos,
+    const ssize_t& depth) {
+    if (depth > MAX_RECURSION_DEPTH) [[unlikely]] {
+        PyErr_SetString(PyExc_RecursionError,
+                        "Maximum recursion depth exceeded during broadcasting the treespecs.");
+        throw py::error_already_set();
+    }
+
     const Node& root = traversal.at(pos);
     const Node& other_root = other_traversal.at(other_pos);
     EXPECT_GE(pos + 1,
@@ -308,7 +315,12 @@ namespace optree {
                 other_cur = other_curs[py::cast<ssize_t>(DictGetItem(dict, key))];
                 const auto [num_nodes, other_num_nodes, new_num_nodes, new_num_leaves] =
                     // NOLINTNEXTLINE[misc-no-recursion]
-                    BroadcastToCommonSuffixImpl(nodes, traversal, cur, other_traversal, other_cur);
+                    BroadcastToCommonSuffixImpl(nodes,
+                                                traversal,
+                                                cur,
+                                                other_traversal,
+                                                other_cur,
+                                                depth + 1);
                 cur -= num_nodes;
                 nodes[start_num_nodes].num_nodes += new_num_nodes;
                 nodes[start_num_nodes].num_leaves += new_num_leaves;
@@ -386,7 +398,7 @@ namespace optree {
     for (ssize_t i = root.arity - 1; i >= 0; --i) {
         const auto [num_nodes, other_num_nodes, new_num_nodes, new_num_leaves] =
             // NOLINTNEXTLINE[misc-no-recursion]
-            BroadcastToCommonSuffixImpl(nodes, traversal, cur, other_traversal, other_cur);
+            BroadcastToCommonSuffixImpl(nodes, traversal, cur, other_traversal, other_cur, depth + 1);
         cur -= num_nodes;
         other_cur -= other_num_nodes;
         nodes[start_num_nodes].num_nodes += new_num_nodes;
@@ -429,7 +441,8 @@ std::unique_ptr<PyTreeSpec> PyTreeSpec::BroadcastToCommonSuffix(const PyTreeSpec
                                     m_traversal,
                                     num_nodes - 1,
                                     other.m_traversal,
-                                    other_num_nodes - 1);
+                                    other_num_nodes - 1,
+                                    0);
     std::reverse(treespec->m_traversal.begin(), treespec->m_traversal.end());
     EXPECT_EQ(num_nodes_walked,
               num_nodes,
@@ -629,6 +642,12 @@ ssize_t PyTreeSpec::PathsImpl(Span& paths,  // NOLINT[misc-no-recursion]
                               Stack& stack,
                               const ssize_t& pos,
                               const ssize_t& depth) const {
+    if (depth > MAX_RECURSION_DEPTH) [[unlikely]] {
+        PyErr_SetString(PyExc_RecursionError,
+                        "Maximum recursion depth exceeded during computing the paths.");
+        throw py::error_already_set();
+    }
+
     const Node& root = m_traversal.at(pos);
     EXPECT_GE(pos + 1, root.num_nodes, "PyTreeSpec::Paths() walked off start of array.");
 
@@ -719,6 +738,12 @@ ssize_t PyTreeSpec::AccessorsImpl(Span& accessors,  // NOLINT[misc-no-recursion]
                                   Stack& stack,
                                   const ssize_t& pos,
                                   const ssize_t& depth) const {
+    if (depth > MAX_RECURSION_DEPTH) [[unlikely]] {
+        PyErr_SetString(PyExc_RecursionError,
+                        "Maximum recursion depth exceeded during computing the accessors.");
+        throw py::error_already_set();
+    }
+
     PYBIND11_CONSTINIT static py::gil_safe_call_once_and_store<py::object> storage;
     const py::object& PyTreeAccessor = storage
                                            .call_once_and_store_result([]() -> py::object {
